@@ -18,8 +18,8 @@ def op_brief(op):
         name = "pop%d" % (len(op) - 2)
     if name in ("insert", "insert_before", "insert_after", "extend",
                 "update", "new"):
-        form = op[3] if name in ("insert", "extend", "update", "new") \
-            else op[4]
+        form = (op[2] if name in ("extend", "update") else
+                op[3] if name in ("insert", "new") else op[4])
         name += ":" + str(form)
     return name
 
@@ -122,7 +122,11 @@ class C10(Property):
         if index % 5000 == 0:
             out.sample = {"run_index": index, "ops": ops[:12],
                           "ops_total": len(ops)}
+        self.finish(out, m)
         return out
+
+    def finish(self, out, m):
+        pass
 
     def execute(self, case):
         m = run_ops(case["ops"], 2, self.machine_cls)
